@@ -146,7 +146,7 @@ def graph_case(draw):
 
 
 HUBS = ("base", "ratios", "root_height", "shifts", "scale.unres", "aff.loc")
-OPS = ["assign", "assign", "assign", "view", "cat", "transformed", "sample", "rsample", "operator", "inplace", "requires_grad", "eval", "anon", "nudge", "nudge"]
+OPS = ["assign", "assign", "assign", "view", "cat", "transformed", "sample", "rsample", "operator", "inplace", "requires_grad", "eval", "anon", "nudge", "nudge", "bad_value"]
 
 # G6: models whose hyper-parameters are written as constants: each becomes a Parameter without an id held by the model
 # alone.  (model id, position among the model's anonymous parameters, path of the constant in the specification, domain)
@@ -541,6 +541,28 @@ def body(c):
                     p.fire_parameter_changed()
 
             _, exc = guarded(f)
+        elif k == "bad_value" and leaves:
+            # a value outside the support: where the model rejects it (the fresh copy raises), the live object must
+            # raise as well, on this and on the next request - an evaluation that failed must not leave a cached answer
+            cand = [l for l in leaves if dom[l] == "pos" and not dic[l].tensor.requires_grad]
+            if not cand:
+                continue
+            target = cand[op["t"] % len(cand)]
+            p = dic[target]
+            good = p.tensor.detach().clone()
+            p.tensor = -good
+            values = {l: dic[l].tensor.detach().tolist() for l in leaves_of(spec)}
+            _, exc_fresh = guarded(lambda: observe("call:joint", load(with_leaf_values(spec, values))["joint"]))
+            if isinstance(exc_fresh, (ValueError, RuntimeError, AssertionError)):
+                _, e1 = guarded(observe, "call:joint", dic["joint"])
+                _, e2 = guarded(observe, "call:joint", dic["joint"])
+                if e1 is None or e2 is None:
+                    seq.append((k, target))
+                    res.fail("answered_after_error", {"step": step, "target": target, "first_request_raised": e1 is not None, "second_request_raised": e2 is not None,
+                                                     "fresh_copy": type(exc_fresh).__name__, "history": seq}, rule=k, bucket=k, target=target)
+                    break
+                k = "bad_value_rejected"
+            p.tensor = good
         elif k == "requires_grad" and leaves:
             target = leaves[op["t"] % len(leaves)]
             p = dic[target]
